@@ -4,8 +4,9 @@ Model of the container-level translation functions of `align/align.go` and `alig
 (property C05): `SeqBag.Translate` / `Alignment.Translate` (one frame or the three frames),
 `CodonAlign` and `TranslateByReference`.  The index walks of the Go code are written as list
 consumption (the columns from `refcodonidx[0]` on are the remaining list); quirks are kept:
-`TranslateByReference` silently drops the columns facing reference gaps in front of a codon, stops at the
-first incomplete codon, and returns empty rows (no error) when the alignment is shorter than `3 + phase`.
+`TranslateByReference` silently drops the columns facing reference gaps in front of a codon and stops at the
+first incomplete codon (an alignment shorter than `3 + phase` and a negative phase are errors since the `fix:`
+commits).
 Core-only.
 -/
 namespace Gv.Model
@@ -132,7 +133,7 @@ def findRowIdx (name : String) : List (String × Seq) → Nat → Option Nat
   | (n, _) :: t, i => if n == name then some i else findRowIdx name t (i + 1)
 
 /-- `a.TranslateByReference(phase, code, refseq)` for `phase ≥ 0`; `none` = error (empty or unknown
-reference name, wrong alphabet, unknown code).  The alignment length is the length of the reference row. -/
+reference name, wrong alphabet, unknown code, alignment shorter than `3 + phase`).  The alignment length is the length of the reference row. -/
 def translateByReference (alphabet : Nat) (phase : Nat) (codeId : Int) (refName : String)
     (rows : List (String × Seq)) : Option (List (String × Seq)) :=
   if refName == "" then none else
@@ -144,8 +145,16 @@ def translateByReference (alphabet : Nat) (phase : Nat) (codeId : Int) (refName 
     | none => none
     | some code =>
       let ref := (rows.getD refId ("", [])).2
+      -- as for `Translate`: at least one codon must start at `phase` (after the `fix:` commit)
+      if ref.length < 3 + phase then none else
       let segs := refSegs code ref.length (ref.drop phase)
       some (rows.zipIdx.map fun x =>
         (x.1.1, if x.2 == refId then segs.flatMap refChunk else compRow code segs (x.1.2.drop phase)))
+
+/-- `a.TranslateByReference(phase, code, refseq)` with the `int` phase of the Go signature: a negative phase
+(in particular the "three frames" value −1 of the command line) is an error (after the `fix:` commit) -/
+def translateByReferenceZ (alphabet : Nat) (phase : Int) (codeId : Int) (refName : String)
+    (rows : List (String × Seq)) : Option (List (String × Seq)) :=
+  if phase < 0 then none else translateByReference alphabet phase.toNat codeId refName rows
 
 end Gv.Model
